@@ -17,7 +17,7 @@ func (g *Gen) historyStep() {
 		return
 	}
 	types4 := []string{"int", "float", "bool", "string"}
-	switch g.rng.Intn(20) {
+	switch g.rng.Intn(21) {
 	case 0, 1:
 		cl := g.randomClause(s, 2)
 		if g.rng.Intn(3) == 0 {
@@ -45,6 +45,13 @@ func (g *Gen) historyStep() {
 	case 4:
 		a := g.rng.Intn(s.n + 1)
 		g.do(Step{Op: "Slice", Recv: f, A: a, B: a + g.rng.Intn(s.n-a+1)})
+	case 19:
+		cols := g.perm(s.names)
+		if g.rng.Intn(3) == 0 && len(cols) > 1 {
+			cols[len(cols)-1] = "nosuch" // detected after part of the work was done
+		}
+		g.do(Step{Op: "ToCSV", Recv: f, Csv: &CsvConf{WriteCols: bsList(cols), NoHeaderWrite: g.rng.Intn(3) == 0}})
+		g.do(Step{Op: "ToJSON", Recv: f})
 	case 5:
 		if g.rng.Intn(3) == 0 {
 			g.do(Step{Op: "Select", Recv: f, Cols: bsList(g.perm(s.names))}) // every column, another order
